@@ -213,13 +213,23 @@ def _rotate_logger() -> None:
     logcfg.set_debug(bool(rotation.decide("helper_logger_debug", (False, False, True))))
 
 
+def _rotate_log_name(log_name: str) -> str:
+    """The name a helper is told to log under is presentation only: every fourth helper gets one with characters special to %-formatting,
+    str.format and regular expressions (an application's display name, a scoped IPv6 literal such as fe80::1%eth0)."""
+    from vf.sim import rotation  # noqa: PLC0415
+
+    if log_name == "dev" and rotation.decide("helper_log_name", ("plain", "plain", "plain", "special-characters")) == "special-characters":
+        return "boiler 50% duty %s {0} @ fe80::1%eth0"
+    return log_name
+
+
 def make_plain(client_info: str = "verif", log_name: str = "dev") -> tuple[Any, RecConn, RecTransport, Driver]:
     from aioesphomeapi._frame_helper.plain_text import APIPlaintextFrameHelper
 
     ensure_loop()
     _rotate_logger()
     c = RecConn()
-    h = APIPlaintextFrameHelper(connection=c, client_info=client_info, log_name=log_name)
+    h = APIPlaintextFrameHelper(connection=c, client_info=client_info, log_name=_rotate_log_name(log_name))
     c.helper = h
     t = RecTransport()
     return h, c, t, Driver(h, c, t)
@@ -233,7 +243,7 @@ def make_noise(psk_b64: str, expected_name: str | None, client_info: str = "veri
     _rotate_logger()
     c = RecConn()
     h = APINoiseFrameHelper(connection=c, noise_psk=psk_b64, expected_name=expected_name,
-                            client_info=client_info, log_name=log_name)
+                            client_info=client_info, log_name=_rotate_log_name(log_name))
     c.helper = h
     t = RecTransport()
     return h, c, t, Driver(h, c, t)
